@@ -4,7 +4,7 @@
    A schedule is any list of atomic steps (Model/Ingest.v) that the model can execute from the
    initial state: all interleavings of n producers, the consumer and the expanding producer. *)
 From Coq Require Import List Arith Permutation.
-From SV Require Import Model.Ingest Spec.IngestSpec Proofs.IngestProofs.
+From SV Require Import Model.Ingest Spec.IngestSpec Proofs.IngestProofs Proofs.IngestOrder.
 Import ListNotations.
 
 (* conservation: processed + queued (in any channel, old or new) + held by a producer inside Emit + dropped
@@ -48,3 +48,66 @@ Theorem C19_cap_bounded : forall c n l s,
   Forall (fun ch => fst ch <= ig_max c) (ig_chans s) /\ ig_cap s <= ig_max c.
 Proof. exact ig_cap_bounded. Qed.
 Print Assumptions C19_cap_bounded.
+
+(* producer_order: for the repaired consumer (it keeps the read lock from loading the channel reference until
+   its select returns) under every strategy, and for the drop / block strategies (which never expand) also
+   with the consumer as found: for all schedules, the processed sequence lists every producer's rows with
+   increasing sequence numbers. ig_ordered l <-> for all positions i < j of l with the same producer,
+   seq(i) < seq(j) (C19_ordered_meaning). *)
+Theorem C19_producer_order : forall c n l s,
+  ig_locked_recv c = true \/ ig_strat c <> IgExpand -> Forall ig_no_mt l ->
+  ig_run c (ig_init c n) l = Some s -> ig_ordered (ig_processed s).
+Proof. exact ig_producer_order. Qed.
+Print Assumptions C19_producer_order.
+
+Theorem C19_producer_order_pairs : forall c n l s,
+  ig_locked_recv c = true \/ ig_strat c <> IgExpand -> Forall ig_no_mt l ->
+  ig_run c (ig_init c n) l = Some s ->
+  forall l1 p k1 l2 k2 l3, ig_processed s = l1 ++ (p, k1) :: l2 ++ (p, k2) :: l3 -> k1 < k2.
+Proof. exact ig_producer_order_pairs. Qed.
+Print Assumptions C19_producer_order_pairs.
+
+Theorem C19_ordered_meaning : forall l, ig_ordered l <->
+  forall l1 x l2 y l3, l = l1 ++ x :: l2 ++ y :: l3 -> fst x = fst y -> snd x < snd y.
+Proof. exact ig_ordered_spec. Qed.
+Print Assumptions C19_ordered_meaning.
+
+(* F14: with the consumer as found (RUnlock before the select) and the expand strategy the statement is false:
+   ld; 3 x Emit (capacity 2: the third one expands); lock; migrate r0; consumer receives r1 from the old
+   channel; swap ... processes r1, r0, r2 *)
+Theorem C19_producer_order_expand_refuted :
+  exists c n l s, ig_locked_recv c = false /\ Forall ig_no_mt l /\ ig_run c (ig_init c n) l = Some s /\
+                  ~ ig_ordered (ig_processed s).
+Proof. exact ig_producer_order_asis_refuted. Qed.
+Print Assumptions C19_producer_order_expand_refuted.
+
+Theorem C19_f14_schedule_blocked_after_repair :
+  ig_run (ig_f14_cfg true) (ig_init (ig_f14_cfg true) 1) ig_f14_schedule = None /\
+  (exists s, ig_run (ig_f14_cfg true) (ig_init (ig_f14_cfg true) 1) (firstn 9 ig_f14_schedule) = Some s /\
+             ig_step (ig_f14_cfg true) s (IgXl 0) = None).
+Proof. exact ig_f14_blocked_after_repair. Qed.
+Print Assumptions C19_f14_schedule_blocked_after_repair.
+
+(* why the count theorems exclude the migration timeout: if the 5 s timer of expandDataChannel fires inside the
+   inner select, the row in hand is lost and the rest of the old channel is stranded, neither counted as dropped *)
+Theorem C19_migration_timeout_loses :
+  exists s, ig_run (ig_f14_cfg true) (ig_init (ig_f14_cfg true) 1) ig_mt_schedule = Some s /\
+            ig_emitted s = 3 /\ ig_dropped s = 0 /\ ig_lost_ids s = [(0, 0)] /\ ig_inflight s = [] /\
+            ig_len s = 0 /\ ig_processed s = [(0, 2)] /\ ig_queued s = [(0, 1)].
+Proof. exact ig_migration_timeout_loses. Qed.
+Print Assumptions C19_migration_timeout_loses.
+
+(* the checker's boolean clauses decide the Props above *)
+Theorem C19_checker_order : forall l, ig_orderedb l = true <-> ig_ordered l.
+Proof. exact ig_orderedb_ok. Qed.
+Print Assumptions C19_checker_order.
+Theorem C19_checker_nodup : forall l, ig_nodupb l = true <-> NoDup l.
+Proof. exact ig_nodupb_ok. Qed.
+Print Assumptions C19_checker_nodup.
+
+(* non-vacuity: two producers, expansion 2 -> 3 = MaxBufferSize, one drop at the ceiling, quiescent end state *)
+Example C19_example :
+  exists s, ig_run ig_ex_cfg (ig_init ig_ex_cfg 2) ig_ex_schedule = Some s /\
+            ig_processed s = [(0, 0); (1, 0); (0, 1)] /\ ig_dropped s = 1 /\ ig_emitted s = 4 /\ ig_cap s = 3 /\
+            ig_queued s = [] /\ ig_inflight s = [] /\ Forall ig_no_mt ig_ex_schedule.
+Proof. exact ig_example_run. Qed.
